@@ -352,6 +352,16 @@ def run_sharded(cmd, cases, timeout=600):
     return result
 
 
+def run_search(ctx, exe, cases):
+    """search mode: the cases as they are (same schedules as the lock-step runs), then again with RT_CATCHALL=1 (every byte
+    of the object under test a scheduling point, which shifts the schedules).  Returns (cases + cases, lines); a
+    violation found in the first half is reported without the '+catchall' suffix (see report_violation)."""
+    plain = run_sharded([exe], cases)
+    ca = run_sharded(["env", "RT_CATCHALL=1", exe], cases)
+    ctx.plain_lines = set(l for l in plain if l)
+    return list(cases) + list(cases), plain + ca
+
+
 def model_run(model, cases):
     return run_sharded([DRIVER, model], cases)
 
@@ -512,6 +522,8 @@ def write_replay(ctx, payload):
 
 def report_violation(ctx, label, case, why, trace, known=None):
     """a concrete failing input on the implementation."""
+    if label.endswith("+catchall") and trace in getattr(ctx, "plain_lines", ()):
+        label = label[:-len("+catchall")]
     if known:
         for k in known:
             if k["match"](label, case, why):
